@@ -138,9 +138,16 @@ Definition ex_members : list smember :=
 Example classK_inhabited : classK ex_members 0 /\ classK ex_members 1 /\ classK ex_members 2 /\ classK [] 0.
 Proof.
   assert (W : wf_extra [202; 254; 0; 0]) by (apply (wf_extra_rec 65226 [] []); [lia|lia|cbn; lia|constructor]).
-  unfold classK, pairs, ex_members, local_ok, central_ok, desc_ok.
-  repeat split; try (vm_compute; congruence); try (repeat constructor; vm_compute; intuition congruence); auto;
-    repeat (constructor; [repeat split; try (vm_compute; congruence); try (intros _ _; exact W); try (intros; exact W); auto|]); try constructor.
+  assert (L : Forall local_ok ex_members).
+  { unfold ex_members.
+    repeat (apply Forall_cons; [vm_compute; repeat split; intros; try reflexivity; try discriminate; auto; try (left; reflexivity); try (right; split; [reflexivity|discriminate])|]).
+    apply Forall_nil. }
+  assert (C : Forall (fun p => central_ok (fst p) (snd p)) (pairs ex_members)).
+  { let v := eval vm_compute in (pairs ex_members) in change (pairs ex_members) with v.
+    repeat (apply Forall_cons; [vm_compute; repeat split; intros; try reflexivity; try discriminate; first [exact W | apply wf_extra_nil]|]).
+    apply Forall_nil. }
+  unfold classK.
+  repeat split; try exact L; try exact C; try (apply Forall_nil); auto; try (vm_compute; reflexivity).
 Qed.
 Example parse_build_computed :
   let z := build ex_members (plain_opts 2) in
